@@ -782,3 +782,38 @@ canary('c10-fun-pid-inline', 'C10', ENCF, "    encode_pid_impl(&mut temp_buf, &f
 canary('c10-term-cmp-pid-no-serial', 'C10', 'crates/erltf/src/term.rs', "                    .then_with(|| a.id.cmp(&b.id))\n                    .then_with(|| a.serial.cmp(&b.serial))\n",
        "                    .then_with(|| a.id.cmp(&b.id))\n", 'OwnedTerm_as_core::cmp::Ord>::cmp:Pid:fields')
 canary('c10-term-cmp-self', 'C10', 'crates/erltf/src/borrowed.rs', "a.serial.cmp(&b.serial)", "a.serial.cmp(&a.serial)", 'SELFCMP')
+canary('c12-map-entries-cmp', 'C12', 'crates/erltf/src/term.rs', """                    for (k1, k2) in a.keys().zip(b.keys()) {
+                        match k1.cmp(k2) {
+                            Ordering::Equal => continue,
+                            other => return other,
+                        }
+                    }
+                    for (v1, v2) in a.values().zip(b.values()) {
+                        match v1.cmp(v2) {
+                            Ordering::Equal => continue,
+                            other => return other,
+                        }
+                    }
+                    Ordering::Equal""", "                    a.iter().cmp(b.iter())", 'Map:interleaved')
+canary('c12-map-then-with', 'C12', 'crates/erltf/src/term.rs', """                    for (k1, k2) in a.keys().zip(b.keys()) {
+                        match k1.cmp(k2) {
+                            Ordering::Equal => continue,
+                            other => return other,
+                        }
+                    }
+                    for (v1, v2) in a.values().zip(b.values()) {
+                        match v1.cmp(v2) {""", """                    for ((k1, v1), (k2, v2)) in a.iter().zip(b.iter()) {
+                        match k1.cmp(k2).then_with(|| v1.cmp(v2)) {""", 'Map:interleaved')
+canary('c12-bigint-neg-len-direct', 'C12', 'crates/erltf/src/term.rs', """            .then_with(|| a.digits.iter().rev().cmp(b.digits.iter().rev()))
+            .reverse(),""", """            .then_with(|| b.digits.iter().rev().cmp(a.digits.iter().rev())),""", 'orientation')
+canary('c12-bigint-mixed-sign', 'C12', 'crates/erltf/src/borrowed.rs', "(Sign::Positive, Sign::Negative) => Ordering::Greater,", "(Sign::Positive, Sign::Negative) => Ordering::Less,", 'signs:Positive-Negative')
+canary('c11-pid-derive-hash', 'C11', 'crates/erltf/src/types.rs', """impl Hash for ExternalPid {
+    fn hash<H: Hasher>(&self, state: &mut H) {
+        self.node.hash(state);""", """impl Hash for ExternalPid {
+    fn hash<H: Hasher>(&self, state: &mut H) {
+        self.local_ext_bytes.hash(state);
+        self.node.hash(state);""", 'EQHASH')
+canary('c13-borrowed-cmp-self', 'C13', 'crates/erltf/src/borrowed.rs', "a.serial.cmp(&b.serial)", "a.serial.cmp(&a.serial)", 'SELFCMP')
+canary('c13-borrowed-cmp-no-serial', 'C13', 'crates/erltf/src/borrowed.rs', "                    .then_with(|| a.id.cmp(&b.id))\n                    .then_with(|| a.serial.cmp(&b.serial))\n",
+       "                    .then_with(|| a.id.cmp(&b.id))\n", 'TWIN:order-fields')
+canary('c11-cmp-wrong-field', 'C11', 'crates/erltf/src/term.rs', "a.serial.cmp(&b.serial)", "a.serial.cmp(&b.creation)", 'CMPFIELDS')
